@@ -5,262 +5,26 @@ package main
 import (
 	"fmt"
 	"sort"
-	"strconv"
 	"strings"
 
-	"github.com/dappledger/AnnChain/gemmill/consensus/pbft"
-	"github.com/dappledger/AnnChain/gemmill/types"
-
+		
+	"verifharness/nodeimpl"
 	"verifharness/nodekit"
 	"verifharness/vh"
 )
 
-type blk struct {
-	name  string
-	block *types.Block
-	parts *types.PartSet
-	id    types.BlockID
-	valid bool
-}
-
-type impl struct {
-	c        *nodekit.Chain
-	blocks   map[string]*blk
-	byHash   map[string]string // block hash -> name
-	byParts  map[string]string // parts-header hash -> name
-	own      int
-	nSched   int
-	lastH    int64
-	ownParts map[string][]*types.Part
-	curOwn   string
-	curHdr   types.PartSetHeader
-}
-
-func kvs(w []string) map[string]string {
-	m := map[string]string{}
-	for _, x := range w {
-		if i := strings.Index(x, "="); i > 0 {
-			m[x[:i]] = x[i+1:]
-		}
-	}
-	return m
-}
-func atoi(s string) int64 { v, _ := strconv.ParseInt(s, 10, 64); return v }
-
-func (im *impl) nameOfHash(h []byte) string {
-	if len(h) == 0 {
-		return "-"
-	}
-	if n, ok := im.byHash[string(h)]; ok {
-		return n
-	}
-	return "?"
-}
-func (im *impl) nameOfParts(h types.PartSetHeader) string {
-	if len(h.Hash) == 0 {
-		return "-"
-	}
-	if n, ok := im.byParts[string(h.Hash)]; ok {
-		return n
-	}
-	return "?"
-}
-
-func (im *impl) register(name string, b *types.Block, ps *types.PartSet, valid bool) {
-	e := &blk{name, b, ps, types.BlockID{Hash: b.Hash(), PartsHeader: ps.Header()}, valid}
-	im.blocks[name] = e
-	im.byHash[string(b.Hash())] = name
-	im.byParts[string(ps.Header().Hash)] = name
-}
-
-func (im *impl) bid(name string) types.BlockID {
-	if name == "-" {
-		return types.BlockID{}
-	}
-	return im.blocks[name].id
-}
-
-func stepName(s pbft.RoundStepType) string {
-	return strings.TrimPrefix(s.String(), "RoundStep")
-}
-
-var stepByName = map[string]pbft.RoundStepType{
-	"NewHeight": pbft.RoundStepNewHeight, "NewRound": pbft.RoundStepNewRound, "Propose": pbft.RoundStepPropose,
-	"Prevote": pbft.RoundStepPrevote, "PrevoteWait": pbft.RoundStepPrevoteWait, "Precommit": pbft.RoundStepPrecommit,
-	"PrecommitWait": pbft.RoundStepPrecommitWait, "Commit": pbft.RoundStepCommit,
-}
-
-func (im *impl) digest() string {
-	rs := im.c.CS.GetRoundState()
-	lb, prop, pb, pp := "-", "-", "-", "-"
-	if rs.LockedBlock != nil {
-		lb = im.nameOfHash(rs.LockedBlock.Hash())
-	}
-	if rs.Proposal != nil {
-		prop = im.nameOfParts(rs.Proposal.BlockPartsHeader)
-	}
-	if rs.ProposalBlock != nil {
-		pb = im.nameOfHash(rs.ProposalBlock.Hash())
-	}
-	if rs.ProposalBlockParts != nil {
-		pp = im.nameOfParts(rs.ProposalBlockParts.Header())
-	}
-	var em []string
-	sched := im.c.Ticker.Scheduled[im.nSched:]
-	im.nSched = len(im.c.Ticker.Scheduled)
-	committed := ""
-	if rs.Height > im.lastH {
-		meta := im.c.Store.LoadBlockMeta(im.lastH)
-		committed = fmt.Sprintf("COMMIT(%d,%s)", im.lastH, im.nameOfHash(meta.Hash))
-		im.lastH = rs.Height
-	}
-	for _, t := range sched {
-		if committed != "" && t.Step == pbft.RoundStepNewHeight && t.Height == rs.Height {
-			em = append(em, committed)
-			committed = ""
-		}
-		em = append(em, fmt.Sprintf("T(%d,%d,%s)", t.Height, t.Round, stepName(t.Step)))
-	}
-	if committed != "" {
-		em = append(em, committed)
-	}
-	return fmt.Sprintf("h=%d r=%d s=%s lr=%d lb=%s prop=%s pb=%s pp=%s cr=%d q=%d | %s",
-		rs.Height, rs.Round, stepName(rs.Step), rs.LockedRound, lb, prop, pb, pp, rs.CommitRound,
-		im.c.CS.VerifInternalQueueLen(), strings.Join(em, " "))
-}
-
-func (im *impl) exec(line string) string {
-	res := vh.Guard(func() string {
-		w := strings.Fields(line)
-		kv := kvs(w)
-		switch w[0] {
-		case "cfg":
-			return "ok"
-		case "init":
-			if im.c != nil {
-				im.c.Close()
-			}
-			var powers []int64
-			for _, p := range strings.Split(kv["powers"], ",") {
-				powers = append(powers, atoi(p))
-			}
-			im.c = nodekit.NewChain(powers, int(atoi(kv["me"])), kv["skip"] == "1")
-			im.blocks, im.byHash, im.byParts = map[string]*blk{}, map[string]string{}, map[string]string{}
-			im.own, im.nSched, im.lastH = 0, 0, 1
-			im.ownParts = map[string][]*types.Part{}
-			return im.digest()
-		case "mkblock":
-			b, ps := im.c.MakeBlock(w[1], int(atoi(kv["proposer"])), kv["valid"] != "0")
-			im.register(w[1], b, ps, kv["valid"] != "0")
-			return "ok"
-		case "proposal":
-			e := im.blocks[w[1]]
-			p := im.c.SignProposal(atoi(kv["h"]), atoi(kv["r"]), e.parts.Header(), atoi(kv["pol"]), im.bid(kv["polblock"]), int(atoi(kv["signer"])), kv["bad"] == "1")
-			im.c.CS.VerifHandleMsg(&pbft.ProposalMessage{Proposal: p}, "peer")
-			return im.digest()
-		case "parts":
-			e := im.blocks[w[1]]
-			for i := 0; i < e.parts.Total(); i++ {
-				im.c.CS.VerifHandleMsg(&pbft.BlockPartMessage{Height: atoi(kv["h"]), Round: atoi(kv["r"]), Part: e.parts.GetPart(i)}, "peer")
-			}
-			return im.digest()
-		case "vote":
-			idx := int(atoi(kv["idx"]))
-			signer := idx
-			if s, ok := kv["signer"]; ok {
-				signer = int(atoi(s))
-			}
-			if signer < 0 {
-				signer = 0
-			}
-			v := im.c.SignVote(idx, unhex(kv["addr"]), atoi(kv["h"]), atoi(kv["r"]), byte(atoi(kv["t"])), im.bid(kv["block"]), signer, kv["tamper"] == "1")
-			im.c.CS.VerifHandleMsg(&pbft.VoteMessage{Vote: v}, kv["peer"])
-			return im.digest()
-		case "timeout":
-			im.c.CS.VerifHandleTimeout(atoi(w[1]), atoi(w[2]), stepByName[w[3]])
-			return im.digest()
-		case "drain":
-			var seen []string
-			for k := 0; k < 200; k++ {
-				m, ok := im.c.CS.VerifNextInternal()
-				if !ok {
-					break
-				}
-				switch x := m.(type) {
-				case *pbft.ProposalMessage:
-					p := x.Proposal
-					nm := im.nameOfParts(p.BlockPartsHeader)
-					if nm == "?" { // a block the node created itself
-						nm = fmt.Sprintf("o%d", im.own)
-						im.own++
-						im.byParts[string(p.BlockPartsHeader.Hash)] = nm
-						im.curOwn, im.curHdr = nm, p.BlockPartsHeader
-						im.ownParts[nm] = nil
-					}
-					seen = append(seen, fmt.Sprintf("P(%d,%s,%d,%s)", p.Round, nm, p.POLRound, im.nameOfHash(p.POLBlockID.Hash)))
-					im.c.CS.VerifHandleMsg(m, "")
-				case *pbft.BlockPartMessage:
-					// all parts of one block are one model message
-					nm := ""
-					for n, e := range im.blocks {
-						if e.parts.Total() > x.Part.Index && string(e.parts.GetPart(x.Part.Index).Hash()) == string(x.Part.Hash()) {
-							nm = n
-						}
-					}
-					if nm == "" { // own block: learn its hash from the parts
-						nm = im.curOwn
-						im.ownParts[nm] = append(im.ownParts[nm], x.Part)
-						if len(im.ownParts[nm]) == im.curHdr.Total {
-							if b := nodekit.BlockFromParts(im.ownParts[nm], im.curHdr); b != nil {
-								ps := types.NewPartSetFromHeader(im.curHdr)
-								for _, pp := range im.ownParts[nm] {
-									ps.AddPart(pp, false)
-								}
-								im.register(nm, b, ps, true)
-							}
-						}
-					}
-					im.c.CS.VerifHandleMsg(m, "")
-					if x.Part.Index == 0 {
-						seen = append(seen, fmt.Sprintf("B(%s)", nm))
-					}
-				case *pbft.VoteMessage:
-					v := x.Vote
-					seen = append(seen, fmt.Sprintf("V(%d,%d,%d,%s)", v.Type, v.Height, v.Round, im.nameOfHash(v.BlockID.Hash)))
-					im.c.CS.VerifHandleMsg(m, "")
-				}
-			}
-			return strings.Join(seen, " ") + " || " + im.digest()
-		}
-		return "bad-op"
-	})
-	if strings.HasPrefix(res, "panic") {
-		return "PANIC"
-	}
-	return res
-}
-
-func unhex(s string) []byte {
-	b := make([]byte, len(s)/2)
-	for i := range b {
-		v, _ := strconv.ParseUint(s[2*i:2*i+2], 16, 8)
-		b[i] = byte(v)
-	}
-	return b
-}
-
 func main() {
 	r := vh.Start()
 	defer r.Finish()
-	im := &impl{}
+	im := &nodeimpl.Impl{}
 	defer func() {
-		if im.c != nil {
-			im.c.Close()
+		if im.C != nil {
+			im.C.Close()
 		}
 	}()
 	var history []string
 	do := func(op string) string {
-		res := im.exec(op)
+		res := im.Exec(op)
 		r.Op(op, res)
 		history = append(history, op)
 		return res
@@ -344,9 +108,9 @@ func main() {
 			st := ""
 			for _, x := range f {
 				if strings.HasPrefix(x, "h=") {
-					h = atoi(x[2:])
+					h = nodeimpl.Atoi(x[2:])
 				} else if strings.HasPrefix(x, "r=") {
-					rd = atoi(x[2:])
+					rd = nodeimpl.Atoi(x[2:])
 				} else if strings.HasPrefix(x, "s=") {
 					st = x[2:]
 				}
@@ -362,7 +126,7 @@ func main() {
 						continue
 					}
 					f := strings.Split(strings.TrimSuffix(strings.TrimPrefix(tok, "V("), ")"), ",")
-					t, vh_, rd, b := int(atoi(f[0])), atoi(f[1]), atoi(f[2]), f[3]
+					t, vh_, rd, b := int(nodeimpl.Atoi(f[0])), nodeimpl.Atoi(f[1]), nodeimpl.Atoi(f[2]), f[3]
 					if vh_ != ledgerH {
 						continue // a stale own vote of an earlier height still in the queue
 					}
@@ -409,12 +173,12 @@ func main() {
 				if !okc && !strings.Contains(out, "||") {
 					fail("commit-without-two-thirds-precommits", "the validator committed block "+b+" without +2/3 precommits for it in one round", out, "no commit")
 				}
-				if e, ok := im.blocks[b]; ok && !e.valid {
+				if e, ok := im.Blocks[b]; ok && !e.Valid {
 					fail("invalid-block-committed", "the validator committed an invalid block", out, "no commit")
 				}
 				recv = map[rk]map[int]string{}
 				lastPrecommitRound, lastPrecommitBlock = -1, ""
-				ledgerH = atoi(f[0]) + 1
+				ledgerH = nodeimpl.Atoi(f[0]) + 1
 			}
 		}
 		dead := false
@@ -431,7 +195,7 @@ func main() {
 		}
 		peerVote := func(v int, t int, rd int64, b string, h int64) {
 			// a valid vote by validator v (recorded in the ledger when for the node's height)
-			op := fmt.Sprintf("vote t=%d h=%d r=%d idx=%d addr=%x block=%s ok=1 peer=p%d", t, h, rd, v, im.c.Addr(v), b, v)
+			op := fmt.Sprintf("vote t=%d h=%d r=%d idx=%d addr=%x block=%s ok=1 peer=p%d", t, h, rd, v, im.C.Addr(v), b, v)
 			ch, _, _ := state()
 			if h == ch {
 				k := rk{rd, t}
@@ -451,9 +215,9 @@ func main() {
 			return fmt.Sprintf("b%d", R.Intn(nblk))
 		}
 		proposerIdx := func() int {
-			a := im.c.CS.GetRoundState().Validators.Proposer().Address
+			a := im.C.CS.GetRoundState().Validators.Proposer().Address
 			for i := range powers {
-				if string(im.c.Addr(i)) == string(a) {
+				if string(im.C.Addr(i)) == string(a) {
 					return i
 				}
 			}
@@ -533,11 +297,11 @@ func main() {
 					vr = 0
 				}
 				b := known()
-				if lb := im.c.CS.GetRoundState().LockedBlock; lb != nil && R.Chance(30) {
-					b = im.nameOfHash(lb.Hash())
+				if lb := im.C.CS.GetRoundState().LockedBlock; lb != nil && R.Chance(30) {
+					b = im.NameOfHash(lb.Hash())
 				}
-				if pbk := im.c.CS.GetRoundState().ProposalBlock; pbk != nil && R.Chance(50) {
-					b = im.nameOfHash(pbk.Hash())
+				if pbk := im.C.CS.GetRoundState().ProposalBlock; pbk != nil && R.Chance(50) {
+					b = im.NameOfHash(pbk.Hash())
 				}
 				order := R.Perm(n)
 				k := R.Range(1, n)
@@ -558,17 +322,17 @@ func main() {
 				op := ""
 				switch kind {
 				case 0:
-					op = fmt.Sprintf("vote t=%d h=%d r=%d idx=%d addr=%x block=%s ok=0 peer=px tamper=1", R.Range(1, 2), h, rd, v, im.c.Addr(v), b)
+					op = fmt.Sprintf("vote t=%d h=%d r=%d idx=%d addr=%x block=%s ok=0 peer=px tamper=1", R.Range(1, 2), h, rd, v, im.C.Addr(v), b)
 				case 1:
-					op = fmt.Sprintf("vote t=%d h=%d r=%d idx=%d addr=%x block=%s ok=0 peer=px signer=%d", R.Range(1, 2), h, rd, v, im.c.Addr(v), b, (v+1)%n)
+					op = fmt.Sprintf("vote t=%d h=%d r=%d idx=%d addr=%x block=%s ok=0 peer=px signer=%d", R.Range(1, 2), h, rd, v, im.C.Addr(v), b, (v+1)%n)
 				case 2:
-					op = fmt.Sprintf("vote t=%d h=%d r=%d idx=%d addr=%x block=%s ok=0 peer=px", R.Range(1, 2), h, rd, []int{-1, n, 1 << 30}[R.Intn(3)], im.c.Addr(v), b)
+					op = fmt.Sprintf("vote t=%d h=%d r=%d idx=%d addr=%x block=%s ok=0 peer=px", R.Range(1, 2), h, rd, []int{-1, n, 1 << 30}[R.Intn(3)], im.C.Addr(v), b)
 				case 3:
-					op = fmt.Sprintf("vote t=%d h=%d r=%d idx=%d addr=%x block=%s ok=1 peer=px", R.Range(1, 2), h+int64(R.Range(1, 2)), rd, v, im.c.Addr(v), b)
+					op = fmt.Sprintf("vote t=%d h=%d r=%d idx=%d addr=%x block=%s ok=1 peer=px", R.Range(1, 2), h+int64(R.Range(1, 2)), rd, v, im.C.Addr(v), b)
 				case 4:
-					op = fmt.Sprintf("vote t=3 h=%d r=%d idx=%d addr=%x block=%s ok=1 peer=px", h, rd, v, im.c.Addr(v), b)
+					op = fmt.Sprintf("vote t=3 h=%d r=%d idx=%d addr=%x block=%s ok=1 peer=px", h, rd, v, im.C.Addr(v), b)
 				default:
-					op = fmt.Sprintf("vote t=%d h=%d r=%d idx=%d addr=%x block=%s ok=1 peer=p%d", R.Range(1, 2), h, rd+int64(R.Range(3, 9)), v, im.c.Addr(v), b, v)
+					op = fmt.Sprintf("vote t=%d h=%d r=%d idx=%d addr=%x block=%s ok=1 peer=p%d", R.Range(1, 2), h, rd+int64(R.Range(3, 9)), v, im.C.Addr(v), b, v)
 				}
 				step(op)
 				r.Count(fmt.Sprintf("act.badvote%d", kind))
